@@ -12,6 +12,7 @@ import math
 import os
 import random
 import sys
+import zlib
 
 sys.path.insert(0, os.path.dirname(os.path.abspath(__file__)))
 import common as C
@@ -26,6 +27,14 @@ NATURAL = ('Converged', 'MaxTime', 'MaxIter', 'NotFinite', 'NoProgress', 'Interr
 
 def bump(k, n=1):
     COUNTS[k] = COUNTS.get(k, 0) + n
+
+
+# inputs kept from earlier failures, run first
+PANOC_CORPUS = [
+    # eager_gradient_eval + Ipopt + a problem using the m-workspace as scratch: Converged with reported ε = 0.978 ≤ 1,
+    # documented ε = 2.333 (known finding C06-panoc-eager-workspace-as-yhat)
+    'run solver=panoc dir=adv n=2 m=3 Q=4:4013000000000000,3ffc000000000000,3ffc000000000000,3ff8000000000000 c=2:401a000000000000,c019000000000000 q4=2:0000000000000000,3ff0000000000000 A=6:bfe0000000000000,0000000000000000,0000000000000000,bfe0000000000000,3ff0000000000000,bff0000000000000 b=3:0000000000000000,0000000000000000,0000000000000000 Clb=2:fff0000000000000,c010000000000000 Cub=2:7ff0000000000000,c00c000000000000 Dlb=3:c006000000000000,3fe8000000000000,fff0000000000000 Dub=3:7ff0000000000000,7ff0000000000000,7ff0000000000000 l1=0: x0=2:4002000000000000,4004000000000000 y0=3:0000000000000000,0000000000000000,0000000000000000 Sig=3:3fe0000000000000,4050000000000000,4000000000000000 maxiter=60 tol=3ff0000000000000 crit=8 maxnp=2 overwrite=1 updcand=1 recomp=0 eager=1 force=0 mem=2 advseed=600 L0=0000000000000000 stopat=0 stopcb=0 nanat=0 oot=0 wmscratch=1',
+]
 
 
 def gen_run(rng, solver='panoc', **over):
@@ -284,7 +293,7 @@ def stale_gradient(op, cb, need_gh):
 def nontrivial(op_line, out_line):
     try:
         r = S.parse_out(out_line)
-        return (r['stats']['status'], r['stats']['iterations'], S.Op.parse(op_line).get('crit'), hash(op_line) % 64)
+        return (r['stats']['status'], r['stats']['iterations'], S.Op.parse(op_line).get('crit'), zlib.crc32(op_line.encode()) % 64)
     except Exception:
         return None
 
@@ -340,7 +349,7 @@ def adapters(names=None):
             continue
         if s.name == 'panoc':
             def gen(a, rng, n, exe, nsweep):
-                ops = [gen_run(rng, 'panoc').line() for _ in range(n)]
+                ops = PANOC_CORPUS + [gen_run(rng, 'panoc').line() for _ in range(n)]
                 if exe and nsweep:
                     ops += c03.sweep_ops(rng, exe, nsweep, solver='panoc')
                 return ops
@@ -364,6 +373,10 @@ def solver_monitor(solver, o, h, st):
             return loopmon.c13_part(o, h, st)
         return None
     m = monitor(o, h, st, flavor=solver.name)
+    if m:
+        return m
+    import loopmon
+    m = loopmon.iterate_consistency(solver.name, o, h, 'C06', bump)   # ε from the documented formula on exact data
     if m:
         return m
     if solver.name == 'fista':
@@ -421,7 +434,7 @@ def nontrivial_any(op_line, out_line):
     t = out_line.split(' ; ')[0].split()
     if len(t) < 3 or t[0] != 'S' or t[1] == 'exception':
         return None
-    return (t[1], t[2], S.Op.parse(op_line).get('crit'), hash(op_line) % 64)
+    return (t[1], t[2], S.Op.parse(op_line).get('crit'), zlib.crc32(op_line.encode()) % 64)
 
 
 TRUSTED = [
